@@ -274,7 +274,7 @@ def rand_case(rng, faithful_only=False):
 
 
 def gen(rng, tier):
-    n = 1200 if tier == "quick" else 20000
+    n = 1000 if tier == "quick" else 8000
     return [rand_case(rng, faithful_only=rng.random() < 0.6) for _ in range(n)]
 
 
